@@ -579,7 +579,60 @@ func (c *Ctx) smtInst(o *Obligation) (string, bool) {
 		}
 		gt := gtb.String()
 		nw := len(witnesses)
-		flush(ematchInstances(lines, hyps, gt+" "+strings.Join(ghyps, " ")+" "+o.Guard.S))
+		em := ematchInstances(lines, hyps, gt+" "+strings.Join(ghyps, " ")+" "+o.Guard.S)
+		flush(em)
+		// positions before a sort (sort.Sort's permutation: new[k] == old[perm[k]]): the two-index
+		// facts about the old contents (pairwise distinctness) at the pre-images of the goal's indices
+		{
+			seenP := map[string]bool{}
+			var permTerms []string
+			for _, l := range em {
+				for i := 0; i+8 < len(l) && len(permTerms) < 6; i++ {
+					if !strings.HasPrefix(l[i:], "(select |perm~sort") {
+						continue
+					}
+					depth, end := 0, -1
+					for j := i; j < len(l); j++ {
+						if l[j] == '|' {
+							if k := strings.IndexByte(l[j+1:], '|'); k >= 0 {
+								j += k + 1
+								continue
+							}
+						}
+						if l[j] == '(' {
+							depth++
+						} else if l[j] == ')' {
+							depth--
+							if depth == 0 {
+								end = j
+								break
+							}
+						}
+					}
+					if end > 0 {
+						if t := l[i : end+1]; !seenP[t] && !strings.Contains(t, "|q ") {
+							seenP[t] = true
+							permTerms = append(permTerms, t)
+						}
+					}
+				}
+			}
+			if len(permTerms) > 0 {
+				var more []string
+				for _, q := range hyps {
+					if len(q.names) == 2 && q.sorts[0] == SInt && q.sorts[1] == SInt {
+						for _, a := range permTerms {
+							for _, b2 := range permTerms {
+								if a != b2 {
+									more = append(more, q.instantiate([]string{a, b2}))
+								}
+							}
+						}
+					}
+				}
+				flush(more)
+			}
+		}
 		if emitLate != nil {
 			// witnesses of the goal-directed instances (a fact about p[k] fired at the element the
 			// goal reads, p[lo+k]) refute the goal as well
